@@ -239,7 +239,7 @@ Proof.
   intros Hb. rewrite location_of_head. destruct (byte_split_spec _ Hb) as (H1 & H2 & H3 & H4).
   split.
   - rewrite H1. exists (nth 0 a 0 / 16), (nth 0 a 0 mod 16). auto.
-  - unfold in_zone. rewrite H4, N.eqb_refl. reflexivity.
+  - unfold in_zone. rewrite H4, !N.eqb_refl. reflexivity.
 Qed.
 
 Lemma zone_unique a l : valid_zone l -> in_zone a l = true -> l = location_of a.
@@ -251,8 +251,8 @@ Proof.
   pose proof (forall_range2 _ 256 256 prefix_pair_all (r * 16 + z) (r * 16 + z) Hq Hq) as Hk.
   unfold prefix_pair_ok in Hk. repeat rewrite andb_true_iff in Hk. destruct Hk as [[_ Hk] _].
   apply keqb_eq in Hk.
-  assert (Hd : (r * 16 + z) / 16 = r) by (rewrite N.mul_comm, N.div_add_l by lia; rewrite N.div_small by lia; lia).
-  assert (Hm : (r * 16 + z) mod 16 = z) by (rewrite N.add_comm, N.mod_add by lia; apply N.mod_small; lia).
+  assert (Hd : (r * 16 + z) / 16 = r) by (symmetry; apply (N.div_unique _ 16 r z); lia).
+  assert (Hm : (r * 16 + z) mod 16 = z) by (symmetry; apply (N.mod_unique _ 16 r z); lia).
   rewrite Hd, Hm in Hk. rewrite Hp in Hk. symmetry. exact Hk.
 Qed.
 
@@ -286,20 +286,20 @@ Proof. intros H. unfold in_chain_scope. rewrite H. reflexivity. Qed.
 Lemma internal_and_quai_spec r a : internal_and_quai r = Some a <-> (r = Internal a /\ is_quai a = true).
 Proof.
   destruct r as [x|x|]; cbn; try (split; [discriminate|intros [H _]; discriminate]).
-  rewrite ledger_negb. destruct (is_quai x) eqn:E; cbn; split.
-  - intros H; inversion H; subst; auto.
-  - intros [H _]; inversion H; reflexivity.
+  pose proof (ledger_negb x) as Hn. destruct (is_qi x) eqn:E; split.
   - discriminate.
-  - intros [H H2]; inversion H; subst. congruence.
+  - intros [H H2]; inversion H; subst. rewrite H2 in Hn. discriminate.
+  - intros H; inversion H; subst. split; [reflexivity|]. destruct (is_quai a); [reflexivity|discriminate].
+  - intros [H _]; inversion H; reflexivity.
 Qed.
 
 Lemma internal_and_qi_spec r a : internal_and_qi r = Some a <-> (r = Internal a /\ is_qi a = true).
 Proof.
   destruct r as [x|x|]; cbn; try (split; [discriminate|intros [H _]; discriminate]).
-  rewrite ledger_negb. destruct (is_quai x) eqn:E; cbn; split.
+  pose proof (ledger_negb x) as Hn. destruct (is_quai x) eqn:E; split.
   - discriminate.
-  - intros [H H2]; inversion H; subst. rewrite E in H2. discriminate.
-  - intros H; inversion H; subst; auto.
+  - intros [H H2]; inversion H; subst. rewrite H2 in Hn. discriminate.
+  - intros H; inversion H; subst. split; [reflexivity|]. exact Hn.
   - intros [H _]; inversion H; reflexivity.
 Qed.
 
@@ -313,7 +313,11 @@ Qed.
 (* hex text *)
 
 Lemma hex_encode_length a : length (hex_encode a) = (2 * length a)%nat.
-Proof. induction a as [|b a IH]; cbn; [reflexivity|]. cbn in IH. rewrite IH. lia. Qed.
+Proof.
+  induction a as [|b a IH]; [reflexivity|].
+  change (hex_encode (b :: a)) with (hex_digit (b / 16) :: hex_digit (b mod 16) :: hex_encode a).
+  cbn [List.length]. rewrite IH. lia.
+Qed.
 
 Lemma hex_decode_encode a : wf_bytes a -> hex_decode (hex_encode a) = a.
 Proof.
@@ -398,13 +402,8 @@ Proof. unfold unquote, quote. cbn [tl]. apply removelast_last. Qed.
 (* ------------------------------------------------------------------ *)
 (* all constructors on an encoding of the same 20 bytes *)
 
-Section Agree.
-  Variable fx : bool.
-  Let bta := bytes_to_address_gen fx.
-
-  Lemma skipn_digest p a : length p = 12%nat -> skipn 12 (p ++ a) = a.
-  Proof. intros H. rewrite skipn_app, H, Nat.sub_diag, skipn_all2 by lia. reflexivity. Qed.
-End Agree.
+Lemma skipn_digest (p a : bytes) : length p = 12%nat -> skipn 12 (p ++ a) = a.
+Proof. intros H. rewrite skipn_app, H, Nat.sub_diag, skipn_all2 by lia. reflexivity. Qed.
 
 Lemma strip_zeros_bta_nonzero a : nth 0 a 0 <> 0 -> strip_zeros a = a.
 Proof. destruct a as [|[|p] a]; cbn; intros H; congruence. Qed.
@@ -468,17 +467,23 @@ Section Grind.
     induction fuel as [|fuel IH]; intros i gas; cbn [grind_loop].
     - left. intros j H1 H2. lia.
     - destruct (gas <? cost) eqn:Eg.
-      + right. exists i. repeat split; try lia. intros j H1 H2. lia.
+      + right. exists i. repeat split; try lia; intros j H1 H2; lia.
       + fold (attempt i). destruct (attempt i) as [a|] eqn:Ea.
-        * exists i. repeat split; try lia; auto. intros j H1 H2. lia.
+        * exists i. repeat split; try lia; auto; intros j H1 H2; lia.
         * specialize (IH (i + 1) (gas - cost)).
           destruct (grind_loop H l fuel (i + 1) (gas - cost) cost) as [a g|].
-          -- destruct IH as (k & K1 & K2 & K3 & K4 & K5). exists k. repeat split; try lia; auto.
-             intros j J1 J2. destruct (N.eq_dec j i) as [->|Hne]; [exact Ea|]. apply K4; lia.
+          -- destruct IH as (k & K1 & K2 & K3 & K4 & K5). exists k.
+             assert (Hk : k - i + 1 = (k - (i + 1) + 1) + 1) by lia.
+             split; [lia|]. split; [lia|]. split; [exact K3|]. split.
+             ++ intros j J1 J2. destruct (N.eq_dec j i) as [->|Hne]; [exact Ea|]. apply K4; lia.
+             ++ rewrite Hk, N.mul_add_distr_r. lia.
           -- destruct IH as [IH|(k & K1 & K2 & K3 & K4)].
              ++ left. intros j J1 J2. destruct (N.eq_dec j i) as [->|Hne]; [exact Ea|]. apply IH; lia.
-             ++ right. exists k. repeat split; try lia.
-                intros j J1 J2. destruct (N.eq_dec j i) as [->|Hne]; [exact Ea|]. apply K4; lia.
+             ++ right. exists k.
+                assert (Hk : k - i + 1 = (k - (i + 1) + 1) + 1) by lia.
+                split; [lia|]. split; [lia|]. split.
+                ** rewrite Hk, N.mul_add_distr_r. lia.
+                ** intros j J1 J2. destruct (N.eq_dec j i) as [->|Hne]; [exact Ea|]. apply K4; lia.
   Qed.
 
   Lemma grind_sound attempts gas a g :
@@ -658,3 +663,257 @@ Proof. vm_compute. reflexivity. Qed.
 (* the sites through which F10 is reachable (class of an arbitrary-length input is consumed) *)
 Definition f10_sites : list string :=
   map (fun y => fst (fst (fst y))) (filter (fun y => match snd y with ANYC => true | _ => false end) reviewed_sites).
+
+(* ------------------------------------------------------------------ *)
+(* statements used by Props/C16.v *)
+Local Close Scope string_scope.
+
+Definition wf20 (a : bytes) : Prop := wf_bytes a /\ length a = 20%nat.
+
+Lemma bta_cur_20 a l : length a = 20%nat -> bytes_to_address a l = classify a l.
+Proof. apply bta_20_spec. Qed.
+
+Lemma constructors_agree_lemma a l (p : bytes) : wf20 a -> length p = 12%nat ->
+  let r := classify a l in
+  bytes_to_address a l = r /\ bytes20_to_address a l = r
+  /\ hex_to_address (hex0x a) l = r /\ hex_to_address (hex_encode a) l = r
+  /\ proto_decode (Some a) l = r /\ wire_to_address a l = r /\ scan a l = r
+  /\ mixedcase_from_string (hex0x a) l = r /\ digest_to_address (p ++ a) l = r
+  /\ hex_to_address_bytes (hex0x a) = a /\ res_bytes r = a.
+Proof.
+  intros [Hw Hl] Hp r.
+  assert (Hb : bytes_to_address a l = r) by (apply bta_cur_20, Hl).
+  repeat split.
+  - exact Hb.
+  - exact Hb.
+  - unfold hex_to_address. rewrite (from_hex_0x a Hw). exact Hb.
+  - unfold hex_to_address. rewrite (from_hex_encode a Hw). exact Hb.
+  - exact Hb.
+  - exact Hb.
+  - unfold scan. rewrite Hl. exact Hb.
+  - unfold mixedcase_from_string. rewrite (is_hex_address_0x a Hw Hl), (from_hex_0x a Hw). exact Hb.
+  - unfold digest_to_address. rewrite (skipn_digest p a Hp). exact Hb.
+  - unfold hex_to_address_bytes. rewrite (from_hex_0x a Hw). apply to20_id, Hl.
+  - unfold r, classify. destruct (in_zone a l); reflexivity.
+Qed.
+
+Lemma big_to_address_agrees a l : wf20 a -> nth 0 a 0 <> 0 -> big_to_address a l = classify a l.
+Proof.
+  intros [_ Hl] Hn. unfold big_to_address. rewrite (strip_zeros_bta_nonzero a Hn). apply bta_cur_20, Hl.
+Qed.
+
+Lemma locationless_lemma a : wf20 a ->
+  let r := classify a [0; 0] in
+  decode_rlp a = r /\ unmarshal_text (hex0x a) = r /\ unmarshal_json (quote (hex0x a)) = r
+  /\ mixedcase_unmarshal_json (quote (hex0x a)) = External a.
+Proof.
+  intros [Hw Hl] r. repeat split.
+  - apply bta_cur_20, Hl.
+  - unfold unmarshal_text. rewrite (unmarshal_fixed_text_0x a Hw Hl). apply bta_cur_20, Hl.
+  - unfold unmarshal_json. rewrite is_string_quote, unquote_quote, (unmarshal_fixed_text_0x a Hw Hl).
+    apply bta_cur_20, Hl.
+  - unfold mixedcase_unmarshal_json. rewrite is_string_quote, unquote_quote, (unmarshal_fixed_text_0x a Hw Hl).
+    unfold bytes20_to_address. rewrite (bta_cur_20 a [] Hl). reflexivity.
+Qed.
+
+Definition zone10_address : bytes := 16 :: repeat 7 19.
+
+Lemma zone10_wf20 : wf20 zone10_address.
+Proof.
+  split; [|reflexivity]. unfold wf_bytes, zone10_address. repeat constructor.
+Qed.
+
+Lemma locationless_refuted_lemma :
+  exists a l, wf20 a /\ valid_zone l /\
+    bytes_to_address a l = Internal a /\ decode_rlp a = External a
+    /\ unmarshal_text (hex0x a) = External a /\ unmarshal_json (quote (hex0x a)) = External a.
+Proof.
+  exists zone10_address, [1; 0]. split; [exact zone10_wf20|]. split.
+  - exists 1, 0. repeat split; lia.
+  - destruct (locationless_lemma _ zone10_wf20) as (H1 & H2 & H3 & _).
+    rewrite H1, H2, H3, (bta_cur_20 _ _ (proj2 zone10_wf20)). vm_compute. auto.
+Qed.
+
+(* classification on 20 bytes, as an iff *)
+Lemma in_scope_iff_prefix_lemma b l : length b = 20%nat ->
+  (in_chain_scope b l = true <-> (context l = ZONE_CTX /\ nth 0 b 0 = byte_prefix l)).
+Proof.
+  intros Hb. rewrite (in_scope_20 b l Hb). unfold in_zone. rewrite andb_true_iff, !N.eqb_eq. tauto.
+Qed.
+
+Lemma class_table_lemma b0 b1 (tail : bytes) r z :
+  b0 < 256 -> b1 < 256 -> length tail = 18%nat -> r < 16 -> z < 16 ->
+  let a := b0 :: b1 :: tail in
+  (bytes_to_address a [r; z] = Internal a <-> b0 = r * 16 + z)
+  /\ (bytes_to_address a [r; z] = External a <-> b0 <> r * 16 + z)
+  /\ bytes_to_address a [] = External a /\ bytes_to_address a [r] = External a
+  /\ (is_qi a = true <-> 128 <= b1) /\ (is_quai a = true <-> b1 < 128).
+Proof.
+  intros H0 H1 Ht Hr Hz a.
+  assert (Hl : length a = 20%nat) by (unfold a; cbn [List.length]; rewrite Ht; reflexivity).
+  rewrite !(bta_cur_20 a _ Hl). unfold classify, in_zone.
+  destruct (valid_zone_prefix r z Hr Hz) as [Hp _]. rewrite Hp.
+  change (nth 0 a 0) with b0. change (context [r; z] =? ZONE_CTX) with true.
+  change (context [] =? ZONE_CTX) with false. change (context [r] =? ZONE_CTX) with false.
+  cbn [andb]. unfold is_qi, is_quai, second. change (nth 1 a 0) with b1.
+  destruct (b0 =? r * 16 + z) eqn:E; [apply N.eqb_eq in E|apply N.eqb_neq in E];
+    repeat split; intros; try congruence; try discriminate; try lia; auto.
+Qed.
+
+Lemma predicates_agree_lemma a l : wf20 a -> valid_zone l ->
+  (check_internal_qi a l = true <-> (exists x, bytes_to_address a l = Internal x) /\ is_qi a = true)
+  /\ (is_conversion_output a l = true <-> (exists x, bytes_to_address a l = Internal x) /\ is_quai a = true)
+  /\ (contains_address l a = true <-> exists x, bytes_to_address a l = Internal x)
+  /\ (create_object_guard a l = true <-> (exists x, bytes_to_address a l = Internal x) /\ is_quai a = true).
+Proof.
+  intros [Hw Hl] Hv. rewrite (bta_cur_20 a l Hl).
+  assert (Hi : (exists x, classify a l = Internal x) <-> in_zone a l = true).
+  { unfold classify. destruct (in_zone a l); split; intros H; eauto; try discriminate.
+    destruct H as [x H]. discriminate. }
+  rewrite Hi. rewrite check_internal_qi_spec, Hl, (create_object_guard_spec a l Hl), contains_address_in_zone.
+  unfold is_conversion_output. rewrite Hl. cbn [Nat.eqb ADDRESS_LENGTH negb andb].
+  rewrite (loc_eqb_in_zone a l (wf_nth a 0 Hw) Hv). fold (is_quai a).
+  rewrite !andb_true_iff. tauto.
+Qed.
+
+Lemma guard_refuses_misclassified fx b l a :
+  bytes_to_address_gen fx b l = Internal a -> in_zone a l = false -> create_object_guard a l = false.
+Proof.
+  intros H Hz. assert (Hl : length a = 20%nat).
+  { pose proof (bta_bytes fx b l) as Hb. rewrite H in Hb. cbn in Hb. subst a. apply to20_length. }
+  rewrite (create_object_guard_spec a l Hl), Hz. reflexivity.
+Qed.
+
+Lemma guard_sound a l : length a = 20%nat -> create_object_guard a l = true ->
+  in_zone a l = true /\ is_quai a = true /\ is_qi a = false.
+Proof.
+  intros Hl H. rewrite (create_object_guard_spec a l Hl) in H. apply andb_true_iff in H.
+  destruct H as [H1 H2]. rewrite ledger_negb, H2. auto.
+Qed.
+
+Lemma qi_utxo_lemma addr dl l : wf_bytes addr -> valid_zone l -> qi_output addr dl l = QUtxo ->
+  in_zone (to20 addr) l = true /\ is_qi (to20 addr) = true /\ is_quai (to20 addr) = false.
+Proof.
+  intros Hw Hv H. apply qi_output_utxo in H. destruct H as [H1 H2].
+  rewrite (loc_eqb_in_zone (to20 addr) l (wf_nth _ 0 (set_bytes_wf _ addr Hw)) Hv) in H1.
+  pose proof (ledger_negb (to20 addr)) as Hn. rewrite H2 in Hn.
+  repeat split; auto. destruct (is_quai (to20 addr)); [discriminate|reflexivity].
+Qed.
+
+Definition qi_long_owner : bytes := 85 :: 0 :: 200 :: repeat 7 18.   (* 21 bytes: 55 | 00 c8 07.. *)
+
+Lemma qi_utxo_refuted_lemma :
+  qi_output qi_long_owner 0 [0; 0] = QUtxo /\ length qi_long_owner = 21%nat
+  /\ in_zone (firstn 20 qi_long_owner) [0; 0] = false /\ is_qi (firstn 20 qi_long_owner) = false.
+Proof. vm_compute. auto. Qed.
+
+Definition f10_site_list : list String.string := Eval vm_compute in f10_sites.
+
+(* composed statements (Props/C16.v only says [exact]) *)
+Lemma zone_ledger_partition_lemma : forall a, wf20 a ->
+  valid_zone (location_of a) /\ in_zone a (location_of a) = true
+  /\ (forall l, valid_zone l -> in_zone a l = true -> l = location_of a)
+  /\ ((is_qi a = true /\ is_quai a = false) \/ (is_qi a = false /\ is_quai a = true)).
+Proof.
+  intros a [Hw Hl]. destruct (zone_of_address a (wf_nth a 0 Hw)) as [H1 H2].
+  exact (conj H1 (conj H2 (conj (fun l Hv Hz => zone_unique a l Hv Hz) (ledger_partition a)))).
+Qed.
+
+Lemma ledger_high_bit_lemma : forall a, wf_bytes a ->
+  is_qi a = N.testbit (second a) 7 /\ is_quai a = negb (is_qi a).
+Proof.
+  intros a Hw. split; [exact (ledger_high_bit a (wf_nth a 1 Hw))|].
+  rewrite ledger_negb, negb_involutive. reflexivity.
+Qed.
+
+Lemma addresses_20_lemma : forall b l,
+  length (res_bytes (bytes_to_address b l)) = 20%nat /\ bytes_to_address b l <> Err.
+Proof.
+  intros b l. unfold bytes_to_address. split; [rewrite bta_bytes; apply to20_length|apply bta_not_err].
+Qed.
+
+Lemma internal_implies_in_zone_partial_lemma : forall b l a, length b = 20%nat ->
+  (bytes_to_address b l = Internal a -> a = b /\ in_zone a l = true)
+  /\ (bytes_to_address b l = External a -> a = b /\ in_zone a l = false).
+Proof.
+  intros b l a Hb. exact (conj (internal_in_zone_20 _ b l a Hb) (external_out_of_zone_20 _ b l a Hb)).
+Qed.
+
+Lemma internal_and_ledger_lemma : forall r a,
+  (internal_and_quai r = Some a <-> (r = Internal a /\ is_quai a = true))
+  /\ (internal_and_qi r = Some a <-> (r = Internal a /\ is_qi a = true))
+  /\ (forall x y, internal_and_quai r = Some x -> internal_and_qi r = Some y -> False).
+Proof.
+  intros r a. exact (conj (internal_and_quai_spec r a) (conj (internal_and_qi_spec r a)
+    (fun x y => internal_quai_qi_exclusive r x y))).
+Qed.
+
+Lemma create_address_lemma : forall (H : N -> bytes) (d0 : bytes) l block_number gas cost,
+  length d0 = 32%nat -> (forall i, length (H i) = 32%nat) ->
+  let attempts := grind_attempts C16Sites.previous_max_address_grind_attempts
+                    C16Sites.max_address_grind_attempts C16Sites.max_grind_increase_fork_block block_number in
+  attempts <= C16Sites.max_address_grind_attempts /\
+  match create_select d0 H l attempts gas cost with
+  | GOk a g => length a = 20%nat /\ in_zone a l = true /\ is_quai a = true /\ g <= gas
+  | GErr => True
+  end.
+Proof.
+  intros H d0 l bn gas cost Hd Hl attempts. split.
+  - apply grind_attempts_bounded. vm_compute. discriminate.
+  - destruct (create_select d0 H l attempts gas cost) as [a g|] eqn:E; [|exact I].
+    exact (create_select_sound H l cost d0 attempts gas a g Hd Hl E).
+Qed.
+
+Lemma grind_lemma : forall (H : N -> bytes) l attempts gas cost,
+  (forall i, length (H i) = 32%nat) ->
+  match grind H l attempts gas cost with
+  | GOk a g =>
+      length a = 20%nat /\ in_zone a l = true /\ is_quai a = true /\ g <= gas
+      /\ exists k, k < attempts /\ a = skipn 12 (H k) /\ g + (k + 1) * cost = gas
+                   /\ forall j, j < k -> attempt H l j = None
+  | GErr =>
+      (forall j, j < attempts -> attempt H l j = None)
+      \/ (exists k, k < attempts /\ gas < (k + 1) * cost /\ forall j, j < k -> attempt H l j = None)
+  end.
+Proof.
+  intros H l attempts gas cost Hl. destruct (grind H l attempts gas cost) as [a g|] eqn:E.
+  - exact (grind_sound H l cost attempts gas a g Hl E).
+  - exact (grind_complete H l cost attempts gas E).
+Qed.
+
+Lemma qi_utxo_partial_lemma : forall addr datalen l, wf_bytes addr -> valid_zone l ->
+  qi_output addr datalen l = QUtxo ->
+  in_zone (to20 addr) l = true /\ is_qi (to20 addr) = true /\ is_quai (to20 addr) = false
+  /\ (length addr = 20%nat -> to20 addr = addr).
+Proof.
+  intros addr dl l Hw Hv H. destruct (qi_utxo_lemma addr dl l Hw Hv H) as (H1 & H2 & H3).
+  exact (conj H1 (conj H2 (conj H3 (to20_id addr)))).
+Qed.
+
+Lemma qi_utxo_owner_refuted_lemma :
+  exists addr, qi_output addr 0 [0; 0] = QUtxo /\ length addr = 21%nat
+    /\ in_zone (firstn 20 addr) [0; 0] = false /\ is_qi (firstn 20 addr) = false.
+Proof. exists qi_long_owner. exact qi_utxo_refuted_lemma. Qed.
+
+(* about the UNREPAIRED constructor: delete together with the Props theorems after the fix *)
+Lemma internal_implies_in_zone_refuted_lemma :
+  (exists b a, length b = 21%nat /\ bytes_to_address b [0; 0] = Internal a
+               /\ in_zone a [0; 0] = false /\ in_zone a [1; 0] = true)
+  /\ (exists b a, length b = 19%nat /\ bytes_to_address b [1; 0] = Internal a
+               /\ in_zone a [1; 0] = false /\ in_zone a [0; 0] = true).
+Proof.
+  split.
+  - exists f10_crop_input, (16 :: repeat 7 19). vm_compute. auto.
+  - exists f10_pad_input, (0 :: 16 :: repeat 7 18). vm_compute. auto.
+Qed.
+
+Lemma in_zone_implies_internal_refuted_lemma :
+  exists b a, length b = 21%nat /\ bytes_to_address b [0; 0] = External a /\ in_zone a [0; 0] = true.
+Proof. exists f10_ext_input, (0 :: repeat 7 19). vm_compute. auto. Qed.
+
+Lemma big_to_address_refuted_lemma :
+  exists a, wf20 a /\ big_to_address a [0; 0] = External a /\ bytes_to_address a [0; 0] = Internal a.
+Proof.
+  exists (0 :: 5 :: repeat 7 18). split; [split; [unfold wf_bytes; repeat constructor|reflexivity]|].
+  vm_compute. auto.
+Qed.
